@@ -321,7 +321,7 @@ def run(ctx):
                                "detail": f"rustc accepts it ({label})",
                                "how_to_replay": "put PRELUDE (vlib/progs.py) and this function into a crate depending on uom (path /repo) with the listed features; cargo check"})
                 break
-    cov["saturating_programs_integer_storage"] = PG.check_saturating(ctx, "c09sat", "C09: no operation lets an offset be applied twice - two temperature points must not combine, "
+    cov["saturating_programs_integer_storage"] = PG.check_saturating(ctx, "satprobe", "C09: no operation lets an offset be applied twice - two temperature points must not combine, "
                                                                      "also not through num_traits::Saturating at integer storage")
     cov["programs"] = 2 * len(progs)
     cov["rustc"] = {"autoconvert": st1, "no_autoconvert": st2}
